@@ -19,8 +19,8 @@ RULE = (
 )
 ASSUMPTIONS = [
     "Python datetime ordinals are the reference calendar",
-    "a returned time of day is rounded to the nearest second before comparing "
-    "(the day fraction is a binary float, <= 1 microsecond error)",
+    "'to the second' = the fields year..second of the returned date, i.e. "
+    "what rendering and format_date show, equal the original (no tolerance)",
     "representable dates = 1900-01-01 .. 9999-12-31 (the statement's domain)",
 ]
 
@@ -83,7 +83,10 @@ def conv_prop(dt):
         return Finding("C17|day-number-not-calendar",
                        f"{dt}: day number {n} (1900-01-01 is {n0}), "
                        f"calendar distance {want}")
-    if isinstance(back, datetime.datetime) and _round_s(back) == dt:
+    # "to the second": what the date shows (its fields down to the second,
+    # which is what rendering and format_date print) is the original
+    if isinstance(back, datetime.datetime) and \
+            back.replace(microsecond=0) == dt:
         return None
     return Finding("C17|roundtrip-differs", f"{dt} -> {n} -> {back}")
 
@@ -150,7 +153,7 @@ def time_arith_prop(dt, n):
             g = datetime.datetime.strptime(s, "%Y%m%d%H%M%S")
         except Exception:
             return False
-        return abs((g - want).total_seconds()) <= 1
+        return g == want
 
     if not (isinstance(got, list) and len(got) == 3 and close(got[0], dt)
             and close(got[1], plus) and close(got[2], dt)):
